@@ -77,6 +77,8 @@ type Exec struct {
 	escaped     map[string]bool // by ref term: handed to a call that is not followed
 	curArgs     []Val
 	inAtoiAxioms bool
+	ensCover    map[string]*ensCover // per implication-shaped postcondition: antecedent reachable at some return
+	ensCoverOrder []string
 	staleLoop   map[int]bool // loops whose declared clauses do not evaluate on the current code
 	atoiAxiom   map[string]bool
 	specDepth   int
@@ -1258,4 +1260,10 @@ func (x *Exec) loopClausesEvaluate(fr *frame, h *ssa.BasicBlock, ordinal int, st
 		x.evalSpec(cl.Expr, env, reach)
 	}
 	return ""
+}
+
+type ensCover struct {
+	props []string
+	text  string
+	terms []Term
 }
